@@ -514,8 +514,11 @@ def minimize_crash(exe, prop, path, env_extra, budget=90):
     tmp = path + '.min'
     used = [0]
 
+    t0 = time.time()
+
     def fails(p):
-        if used[0] >= budget:
+        # replay budget and a wall-clock budget: minimising a hang costs one watchdog period per failing candidate
+        if used[0] >= budget or time.time() - t0 > 150:
             return False
         used[0] += 1
         open(tmp, 'w').write('\n'.join(lines) + '\nprog=' + bytes(p).hex() + '\n')
